@@ -126,6 +126,10 @@ def make_tree(ctx, root, shape, leafmode, nshape=None):
             return [Ob('KeyError only with degree-2 model operands', res[2].startswith('models'), info={'msg': res[1]}, sig='KeyError')]
         _, tree, R, labels, unchanged, R2 = res
         obs = [Ob('inputs not modified', unchanged)]
+        rl = {i for k in R for i in O.as_key(k)} if isinstance(R, dict) else set()
+        rl2 = {i for k in R2 for i in O.as_key(k)} if isinstance(R2, dict) else set()
+        if not (rl | rl2) <= set(labels):
+            return obs + [Ob('result uses only the operands\' variables', False, info={'extra': sorted(map(repr, (rl | rl2) - set(labels)))})]
         if R2 is not None:
             bad2 = []
             for a in O.assigns(labels):
